@@ -180,8 +180,8 @@ class Model:
                 ctx.extra['idle'] = False
             else:
                 st = ctx.do(r, b'IDLE')
-                if st.tagged is None and st.responses and \
-                        st.responses[-1].kind == 'cont':
+                if st.tagged is None and any(r.kind == 'cont'
+                                             for r in st.responses):
                     ctx.extra['idle'] = True
         else:
             st = ctx.do(r, ev['line'])
